@@ -586,3 +586,8 @@ func c01Families(c *Check) []BashCase {
 	}
 	return cases
 }
+
+// ife: if c { then } else { els }
+func ife(c Expr, then []Stmt, els []Stmt) Stmt {
+	return If{Branches: []IfBranch{{c, then}}, Else: els, HasElse: true}
+}
